@@ -28,7 +28,10 @@ type vStore struct {
 
 var vDB = &vStore{tables: map[string][]vRow{}}
 
-func vResetDB() { vDB = &vStore{tables: map[string][]vRow{}} }
+func vResetDB() {
+	vDB = &vStore{tables: map[string][]vRow{}}
+	vInserts, vInsertFaultAt = 0, 0
+}
 
 var vUnique = map[string][]string{
 	"sessions": {"id"}, "vouchers": {"guid"}, "rv_blobs": {"guid"},
@@ -126,7 +129,14 @@ func vFKOK(table string, kvs map[string]any) bool {
 	return true
 }
 
+// storage fault injection: the vInsertFaultAt-th insert (1-based) fails; 0 = never
+var vInserts, vInsertFaultAt int
+
 func VerifModel_insert(ctx context.Context, db any, table string, kvs map[string]any, upsertOnConflict []string) error {
+	vInserts++
+	if vInserts == vInsertFaultAt {
+		return errors.New("model: injected storage fault on insert")
+	}
 	if !vFKOK(table, kvs) {
 		return errors.New("model: FOREIGN KEY constraint failed")
 	}
